@@ -1,6 +1,11 @@
 (* CopyModel.v — copy / move / assign / swap of event queues (homogeneous and heterogeneous)
-   at the level of what the objects contain: listeners per event key (in order), filters,
-   pending events and the two atomic counters.  What a constructor does not name in its
+   at the level of what the objects contain: listeners per event key (in order; every listener is a
+   NODE with an identity of its own, which is what a handle refers to), filters,
+   pending events and the two atomic counters.  A copy clones the nodes (fresh identities: no handle
+   of the source is owned by the copy), a move and a swap transfer them (handles follow the nodes).
+   Whether copy-assignment from itself leaves the nodes alone is read off the headers by tie A
+   (GenCtor.*_copy_assign_self_safe): a copy-and-swap assignment without a self test clones them,
+   and every handle taken before goes stale.  What a constructor does not name in its
    mem-initialiser list starts with an ARBITRARY value `junk` (the previous content of the
    storage): whether the copy and move constructors name the counters is read off the headers
    by tie A (GenCtor).  Definitions only. *)
@@ -10,7 +15,7 @@ Import ListNotations.
 Local Open Scope nat_scope.
 
 Record cobj := mkObj {
-  olst : list (nat * list nat);       (* event key -> callback ids in list order *)
+  olst : list (nat * list (nat * nat));   (* event key -> (node id, callback id) in list order *)
   ofilters : list (nat * bool);       (* filter id, verdict *)
   opending : list (nat * Z);          (* queued events (key, argument) *)
   oecnt : Z;                          (* queueEmptyCounter *)
@@ -18,7 +23,9 @@ Record cobj := mkObj {
 }.
 
 Inductive ccmd :=
-| CAppend (o k c : nat)
+| CAppend (o k c : nat)               (* the i-th CAppend of a program fills handle register i *)
+| COwns (o k h : nat)                 (* ownsHandle(k, handle h) on object o *)
+| CRemove (o k h : nat)               (* removeListener(k, handle h); only for a handle o owns (a foreign handle is outside the contract) *)
 | CAddFilter (o c : nat) (verdict : bool)
 | CEnqueue (o k : nat) (a : Z)
 | CProcess (o : nat)
@@ -51,10 +58,31 @@ Fixpoint oset {A} (l : list A) (i : nat) (x : A) : list A :=
 
 Definition fresh_obj : cobj := mkObj [] [] [] 0 0.
 
+(* node identities of an object's listeners; the callbacks per key without the identities *)
+Definition lnodes (l : list (nat * list (nat * nat))) : list nat := flat_map (fun kl => map fst (snd kl)) l.
+Definition cbs_of (l : list (nat * list (nat * nat))) : list (nat * list nat) := map (fun kl => (fst kl, map snd (snd kl))) l.
+
+(* cloning gives every node a fresh identity, in order *)
+Fixpoint renum (nxt : nat) (l : list (nat * nat)) : list (nat * nat) * nat :=
+  match l with
+  | [] => ([], nxt)
+  | nc :: t => let '(t', n') := renum (S nxt) t in ((nxt, snd nc) :: t', n')
+  end.
+Fixpoint clone_lst (nxt : nat) (l : list (nat * list (nat * nat))) : list (nat * list (nat * nat)) * nat :=
+  match l with
+  | [] => ([], nxt)
+  | kl :: t => let '(ns', n1) := renum nxt (snd kl) in let '(t', n2) := clone_lst n1 t in ((fst kl, ns') :: t', n2)
+  end.
+Definition with_lst (o : cobj) (l : list (nat * list (nat * nat))) : cobj :=
+  mkObj l (ofilters o) (opending o) (oecnt o) (oncnt o).
+Definition has_node (n : nat) (l : list (nat * nat)) : bool := existsb (fun nc => Nat.eqb (fst nc) n) l.
+Definition drop_node (n : nat) (l : list (nat * nat)) : list (nat * nat) := filter (fun nc => negb (Nat.eqb (fst nc) n)) l.
+
 Section CopyInterp.
   Variable copy_inits copy_src : bool.     (* does the copy constructor initialise the two counters; if so, from the source's? *)
   Variable move_inits move_src : bool.     (* the same for the move constructor *)
   Variable junk1 junk2 : Z.                (* what the storage held before *)
+  Variable assign_self_safe : bool.        (* does copy-assignment from itself leave the nodes alone (map assignment / self test)? *)
 
   Definition ctor_counter (inits from_src : bool) (junk srcv : Z) : Z :=
     if inits then (if from_src then srcv else 0%Z) else junk.
@@ -66,12 +94,18 @@ Section CopyInterp.
     mkObj (olst o) (ofilters o) [] (ctor_counter move_inits move_src junk1 (oecnt o)) (ctor_counter move_inits move_src junk2 (oncnt o)).
   Definition moved_from (o : cobj) : cobj := mkObj [] [] (opending o) (oecnt o) (oncnt o).
 
-  Record cstate := mkC { objs : list (option cobj); ctrace : list cev }.
+  (* the copy constructed at node counter nxt: the shape of copy_of with cloned nodes *)
+  Definition copy_at (nxt : nat) (o : cobj) : cobj * nat :=
+    let '(l, n) := clone_lst nxt (olst o) in (with_lst (copy_of o) l, n).
+
+  Record cstate := mkC { objs : list (option cobj); ctrace : list cev; cnext : nat; cregs : list nat }.
 
   Definition getobj (st : cstate) (o : nat) : option cobj :=
     match nth_error (objs st) o with Some (Some x) => Some x | _ => None end.
-  Definition putobj (st : cstate) (o : nat) (x : option cobj) : cstate := mkC (oset (objs st) o x) (ctrace st).
-  Definition clog (st : cstate) (e : cev) : cstate := mkC (objs st) (e :: ctrace st).
+  Definition putobj (st : cstate) (o : nat) (x : option cobj) : cstate := mkC (oset (objs st) o x) (ctrace st) (cnext st) (cregs st).
+  Definition clog (st : cstate) (e : cev) : cstate := mkC (objs st) (e :: ctrace st) (cnext st) (cregs st).
+  Definition setnext (st : cstate) (n : nat) : cstate := mkC (objs st) (ctrace st) n (cregs st).
+  Definition klist (x : cobj) (k : nat) : list (nat * nat) := match alook k (olst x) with Some l => l | None => [] end.
 
   (* filters in order until the first false; then the listeners of the key *)
   Fixpoint run_filters (st : cstate) (o : nat) (fs : list (nat * bool)) (a : Z) : cstate * bool :=
@@ -83,7 +117,7 @@ Section CopyInterp.
   Definition do_dispatch (st : cstate) (o : nat) (x : cobj) (k : nat) (a : Z) : cstate :=
     let '(st1, pass) := run_filters st o (ofilters x) a in
     if pass then
-      fold_left (fun s c => clog s (CCall o c k a)) (match alook k (olst x) with Some l => l | None => [] end) st1
+      fold_left (fun s c => clog s (CCall o c k a)) (map snd (klist x k)) st1
     else st1.
 
   Definition is_nil {A} (l : list A) : bool := match l with [] => true | _ => false end.
@@ -92,9 +126,23 @@ Section CopyInterp.
     match c with
     | CAppend o k c =>
         match getobj st o with
-        | Some x => Some (putobj st o (Some (mkObj (aput k ((match alook k (olst x) with Some l => l | None => [] end) ++ [c]) (olst x))
-                                                     (ofilters x) (opending x) (oecnt x) (oncnt x))))
+        | Some x =>
+            let st1 := putobj st o (Some (with_lst x (aput k (klist x k ++ [(cnext st, c)]) (olst x)))) in
+            Some (mkC (objs st1) (ctrace st1) (S (cnext st)) (cregs st ++ [cnext st]))
         | None => None
+        end
+    | COwns o k h =>
+        match getobj st o, nth_error (cregs st) h with
+        | Some x, Some n => Some (clog st (CRet (has_node n (klist x k))))
+        | _, _ => None
+        end
+    | CRemove o k h =>
+        match getobj st o, nth_error (cregs st) h with
+        | Some x, Some n =>
+            if has_node n (klist x k)
+            then Some (clog (putobj st o (Some (with_lst x (aput k (drop_node n (klist x k)) (olst x))))) (CRet true))
+            else None
+        | _, _ => None
         end
     | CAddFilter o c v =>
         match getobj st o with
@@ -145,7 +193,7 @@ Section CopyInterp.
         match nth_error (objs st) d with Some None => Some (putobj st d (Some fresh_obj)) | _ => None end
     | CCopyCtor s d =>
         match getobj st s, nth_error (objs st) d with
-        | Some x, Some None => Some (putobj st d (Some (copy_of x)))
+        | Some x, Some None => let '(y, n) := copy_at (cnext st) x in Some (setnext (putobj st d (Some y)) n)
         | _, _ => None
         end
     | CMoveCtor s d =>
@@ -156,7 +204,10 @@ Section CopyInterp.
     | CCopyAssign s d =>
         (* assignment only assigns the dispatcher part: the destination keeps its queue and counters *)
         match getobj st s, getobj st d with
-        | Some x, Some y => Some (putobj st d (Some (mkObj (olst x) (ofilters x) (opending y) (oecnt y) (oncnt y))))
+        | Some x, Some y =>
+            if Nat.eqb s d && assign_self_safe then Some st
+            else let '(l, n) := clone_lst (cnext st) (olst x) in
+                 Some (setnext (putobj st d (Some (mkObj l (ofilters x) (opending y) (oecnt y) (oncnt y)))) n)
         | _, _ => None
         end
     | CMoveAssign s d =>
@@ -186,7 +237,7 @@ Section CopyInterp.
     | c :: r => match cstep st c with Some st1 => crun st1 r | None => None end
     end.
 
-  Definition cinit (n : nat) : cstate := mkC (Some fresh_obj :: repeat None (pred n)) [].
+  Definition cinit (n : nat) : cstate := mkC (Some fresh_obj :: repeat None (pred n)) [] 0 [].
 
   Definition c_run_case (n : nat) (cs : list ccmd) : option (list cev) :=
     match crun (cinit n) cs with Some st => Some (rev (ctrace st)) | None => None end.
